@@ -220,7 +220,10 @@ def build(desc):
   elif k == 'list':
     s = T.List(build(desc['elem']), min_size=desc.get('mn'), max_size=desc.get('mx'), **kw)
   elif k == 'tuple':
-    if 'elems' in desc:
+    if 'elems' in desc and desc.get('shared'):
+      # Tuple(spec, size=n): ONE element spec object shared by the n positions
+      s = T.Tuple(build(desc['elems'][0]), size=len(desc['elems']), **kw)
+    elif 'elems' in desc:
       s = T.Tuple([build(e) for e in desc['elems']], **kw)
     else:
       s = T.Tuple(build(desc['elem']), min_size=desc.get('mn'), max_size=desc.get('mx'), **kw)
@@ -236,6 +239,10 @@ def build(desc):
           ks = T.StrKey(REGEX_POOL[key[1]] if key[1] is not None else None)
         fields.append((ks, build(fd)))
       s = T.Dict(fields, **kw)
+      if desc.get('ext') is not None:
+        # the schema is obtained by EXTENSION: inherited fields first, then the own ones (the state read
+        # back below is the merged schema)
+        s = s.extend(build(desc['ext']))
   elif k == 'obj':
     s = T.Object(classes()[desc['cls']], **kw)
   elif k == 'union':
@@ -984,6 +991,25 @@ def var_tuple_pair(g):
     child = {'k': 'tuple', 'elem': copy.deepcopy(elem), 'mn': None, 'mx': r.choice([None, bmx]), 'n': 0}
   vals = [['t', [g.valid(elem) for _ in range(n)]] for n in (bmx - 1, bmx, bmx + 1, bmx + 2) if n >= 0]
   return child, base, vals
+
+
+def shared_tuple_pair(g):
+  """(a, b): a per-position fixed tuple whose LATER elements differ from the first, against a tuple declared
+  with `size=` (one shared element spec equal / related to the first element)."""
+  r = g.r
+  e0 = g.spec(0)
+  n = r.randint(2, 3)
+  others = []
+  for _ in range(n - 1):
+    e = g.spec(0)
+    if r.chance(0.3):
+      e = g.mutate(e0)
+    others.append(e)
+  a = {'k': 'tuple', 'elems': [copy.deepcopy(e0)] + others, 'n': 0}
+  sh = copy.deepcopy(e0) if r.chance(0.7) else g.mutate(e0)
+  b = {'k': 'tuple', 'elems': [copy.deepcopy(sh) for _ in range(n)], 'shared': True, 'n': 0}
+  vals = [['t', [g.valid(x) for x in a['elems']]] for _ in range(3)] + [['t', [g.valid(sh) for _ in range(n)]] for _ in range(2)]
+  return a, b, vals
 
 
 def to_num(b):
